@@ -213,6 +213,7 @@ class Ref:
         self.reads = set()
         self.read_log = []  # ordered (key, present)
         self.abandoned_reads = set()  # reads made inside coalesce members / dispatches that then failed
+        self.abandoned_by_origin = {}
         self.optional_absent = set()
         self.before = set()
         self.structural = set()
@@ -228,6 +229,7 @@ class Ref:
         self.reads = set()
         self.read_log = []
         self.abandoned_reads = set()
+        self.abandoned_by_origin = {}
         self.optional_absent = set()
         self.body_events = []
         self.effect_events = []
@@ -323,15 +325,16 @@ class Ref:
             return unescape(v)
         return v
 
-    def _trial_enter(self):
+    def _trial_enter(self, origin="coalesce"):
         self._trial += 1
-        self._trial_marks.append(len(self.read_log))
+        self._trial_marks.append((len(self.read_log), origin))
 
     def _trial_exit(self, start, success):
         self._trial -= 1
-        mark = self._trial_marks.pop()
+        mark, origin = self._trial_marks.pop()
         if not success:
             self.abandoned_reads.update(self.read_log[mark:])
+            self.abandoned_by_origin.setdefault(origin, set()).update(self.read_log[mark:])
         if success and self._trial == 0:
             # events of a successful member are on the selected path
             for i in range(start, len(self.log)):
@@ -434,7 +437,7 @@ class Ref:
 
     def _switch(self, d, table, dflt, o):
         start = len(self.log)
-        self._trial_enter()
+        self._trial_enter("dispatch")
         try:
             if isinstance(d, tuple) and d[0] == "optkey":
                 k = self._structural(lambda: self._option(d[1], None, o))
@@ -619,6 +622,9 @@ class Ref:
             v = cb(v)
         if not self._effects_disabled(o2):
             for e in p["effects"]:
+                if not isinstance(e, str):
+                    self._option(e[2], None, o2)  # the effect's own option parameter
+                    e = e[1]
                 self.effect_events.append((e, peek(v)))
                 self._call("effect", e, lambda x: None, (v,))
         return v
@@ -651,7 +657,7 @@ class Ref:
     def _switch_ds(self, p, body, o):
         d = p["dispatch"]
         start = len(self.log)
-        self._trial_enter()
+        self._trial_enter("dispatch")
         try:
             if d[0] == "optkey":
                 k = self._structural(lambda: self._option(d[1], None, o))
